@@ -447,6 +447,10 @@ FilterGradient24 (rfbClient* client, int srcx, int srcy, int numRows)
   uint8_t pix[3];
   int est[3];
 
+  /* the first pixel of each row is stored unconditionally below */
+  if (client->rectWidth == 0)
+    return;
+
   for (y = 0; y < numRows; y++) {
 
     /* First pixel in a row */
@@ -498,6 +502,10 @@ FilterGradientBPP (rfbClient* client, int srcx, int srcy, int numRows)
     return;
   }
 #endif
+
+  /* the first pixel of each row is stored unconditionally below */
+  if (client->rectWidth == 0)
+    return;
 
   max[0] = client->format.redMax;
   max[1] = client->format.greenMax;
